@@ -101,9 +101,17 @@ func Run(specDir, tmp, module, cfg string, o Options) (*Result, error) {
 	cmd := exec.CommandContext(ctx, "tlc", args...)
 	cmd.Dir = work
 	cmd.Env = append(os.Environ(), o.Env...)
+	// TLC creates an (empty) tlc-<random> directory under java.io.tmpdir on every start: keep it in the scratch dir
+	jopts := "-Djava.io.tmpdir=" + work
 	if o.DFS {
-		cmd.Env = append(cmd.Env, "JAVA_TOOL_OPTIONS=-Dtlc2.tool.queue.IStateQueue=StateDeque")
+		jopts += " -Dtlc2.tool.queue.IStateQueue=StateDeque"
 	}
+	for _, e := range o.Env { // a caller's own JVM options (heap size) are kept
+		if v, ok := strings.CutPrefix(e, "JAVA_TOOL_OPTIONS="); ok {
+			jopts += " " + v
+		}
+	}
+	cmd.Env = append(cmd.Env, "JAVA_TOOL_OPTIONS="+jopts)
 	var out bytes.Buffer
 	cmd.Stdout = &out
 	cmd.Stderr = &out
